@@ -59,7 +59,7 @@ def call_args(mu, kw, typed, rng_choice=0):
     return mu2, kw2
 
 
-def diagnose(calls):
+def diagnose(calls, ts=None):
     """why a run failed, from the recorded kernel calls"""
     tags = []
     for nm, args, res in calls:
@@ -75,6 +75,18 @@ def diagnose(calls):
             ob = [float(x) for x in res[0]]
             if not K.strictly_increasing(ob):
                 tags.append("repeated-original-break")
+    # a branch carrying a mutation whose end points are (after rescaling) adjacent doubles has no
+    # double strictly inside it: the midpoint rule cannot be satisfied
+    cm = [c for c in calls if c[0] == "count_mutations" and not isinstance(c[2], Exception)]
+    ecalls = [c for c in calls if c[0] == "piecewise_scale_point_estimate" and not isinstance(c[2], Exception)]
+    if cm and ts is not None:
+        final = np.array(ecalls[-1][2], dtype=float) if ecalls else np.array(ts.nodes_time, dtype=float)
+        for e in cm[0][2][1]:
+            if e >= 0:
+                tp, tc = final[ts.edges_parent[e]], final[ts.edges_child[e]]
+                if tp > tc and not (tc < (tp + tc) / 2 < tp):
+                    tags.append("branch-without-interior-double")
+                    break
     return "+".join(sorted(set(tags))) or "other"
 
 
@@ -86,7 +98,7 @@ def oracle(ctx, ts, mu, kw, ancient, st, out, calls, rp):
         return
     if st != "ok":
         # a run that does not return violates "returns a valid tree sequence"
-        ctx.oracle_fail("%s:%s" % (st, diagnose(calls)), "rescale_tree_sequence did not return", rp)
+        ctx.oracle_fail("%s:%s" % (st, diagnose(calls, ts)), "rescale_tree_sequence did not return", rp)
         return
     samples = list(ts.samples())
     t0, t1 = ts.nodes_time, out.nodes_time
